@@ -43,7 +43,7 @@ type Scenario struct {
 	Program string             `json:"program"`
 	Plan    []faultsys.Trigger `json:"plan"`
 	Trace   bool               `json:"trace,omitempty"` // fault-free run that reports the RPC counts
-	Par     int                `json:"par,omitempty"`   // session parallelism (default 4 = two machines of 2 procs; 2 = a single machine)
+	Par     int                `json:"par,omitempty"`   // session parallelism (default 4; 1 = a cluster of a single machine)
 }
 
 func (s Scenario) String() string {
@@ -542,7 +542,7 @@ func plansFor(program string, par int, counts map[string]int) []Scenario {
 			}
 			for _, phase := range []string{"before", "after"} {
 				for _, victim := range []string{"target", "other"} {
-					if par == 2 && victim == "other" {
+					if par == 1 && victim == "other" {
 						continue // a single machine
 					}
 					out = append(out, Scenario{Program: program, Par: par, Plan: []faultsys.Trigger{{Method: m, N: k, Phase: phase, Victim: victim}}})
@@ -596,7 +596,7 @@ func TestVerifC02SingleKill(t *testing.T) {
 		variants = append(variants, variant{p, 0})
 	}
 	// a cluster of a single machine: every loss takes the whole cluster down
-	variants = append(variants, variant{"map-only", 2}, variant{"reduce", 2})
+	variants = append(variants, variant{"map-only", 1}, variant{"reduce", 1})
 	var traces []Scenario
 	for _, v := range variants {
 		traces = append(traces, Scenario{Program: v.program, Par: v.par, Trace: true})
@@ -626,9 +626,25 @@ func TestVerifC02SingleKill(t *testing.T) {
 	if !vt.Thorough() {
 		step = len(all)/330 + 1
 	}
+	picked := map[int]bool{}
 	for i := (vt.Seed() * 7) % step; i < len(all); i += step {
+		picked[i] = true
 		if vt.Mine(i / step) {
 			mine = append(mine, all[i])
+		}
+	}
+	// always part of the quick sample: losses while a single-machine cluster boots, and the first reads
+	// of the long shuffle streams breaking mid-stream
+	k := 0
+	for i, sc := range all {
+		tr := sc.Plan[0]
+		must := sc.Par == 1 && tr.Method == "Worker.FuncLocations" ||
+			sc.Program == "big-reduce" && tr.Phase == "mid" && tr.N < 6 && tr.CutAfter >= 3000
+		if must && !picked[i] {
+			k++
+			if vt.Mine(k) {
+				mine = append(mine, sc)
+			}
 		}
 	}
 	if err := runScenarios(mine, rep); err != nil {
